@@ -18,14 +18,17 @@ from ..statemon import Reach, FPMonitor
 RULE = ('cases: (a) every atom with neutron data as a one-atom compound at three wavelengths, plus its ions; (b) every '
         'element/isotope with data queried directly (.scattering/.sld) against the one-atom compound at the atom density; '
         '(c) each energy-dependent entry on all its table nodes, segment midpoints and beyond both ends; (d) random compounds '
-        'of 1-8 atoms (ordinary, energy-dependent, ions), density log-uniform in (0,25] as density= or natural_density=, '
+        'of 1-8 atoms (ordinary, energy-dependent, ions), density log-uniform in [1e-4,25] (8 %: [1e-15,1e-4]) as density= or natural_density=, '
         'wavelength in [0.05,50] A or the equivalent energy=, scalar or vector, given as dict, string, Formula or atom; '
         '(e) compounds containing an atom without data must give (None,None,None); (f) Ra (tabulated data, element density '
         'unknown) in compounds of given density; (g) buffer reuse: one ndarray or list of 1-7 wavelengths (or energies) passed '
         'to 2-4 consecutive calls for the same compound (each energy-dependent entry at least once per container kind, alone '
         'or in a random compound, through neutron_scattering, neutron_sld, .scattering, .sld) and modified in place between '
-        'the calls. distinct = distinct (sorted atom keys, scalar/vector, energy/wavelength/default, '
-        'density kind, family); a case is non-trivial when at least seven numbers (or the stated None triple) were compared '
+        'the calls; (h) nested compounds: 2-6 atoms written with groups inside groups, multipliers other than 1 on two or three '
+        'levels and atoms of their own in the enclosing groups, given as formula string, Formula parsed from it, nested '
+        '(count, fragment) list, Formula arithmetic (sum of m*formula(...)) or n*formula(grouped string); the reference '
+        'composition is the model multiset the rendering was made from. distinct = distinct (sorted atom keys, scalar/vector, energy/wavelength/default, '
+        'density kind, family[, nested form]); a case is non-trivial when at least seven numbers (or the stated None triple) were compared '
         'with the reference')
 TECHNIQUE = ('runtime monitoring: reference-model monitor (independent table reader + documented equations) over exhaustive '
              'single-atom sweeps and seeded random compounds; in-process postcondition on nsf._calculate_scattering; '
@@ -48,7 +51,12 @@ ASSUMPTIONS = ['the equations of the neutron_scattering docstring are the specif
                'an ion has the neutron data of its element/isotope and the mass less q electrons',
                'Ra/Ra-226 have tabulated data: with a given density they belong to the "all atoms have neutron data" clause',
                'a call describes the wavelengths its argument holds at the time of the call: a caller may refill or rescale its own '
-               'array/list between calls (the library may not keep a reference to it as a cache key), and no call may modify it']
+               'array/list between calls (the library may not keep a reference to it as a cache key), and no call may modify it',
+               'the composition of a compound written with groups is the fold of its derivation tree (every atom count times the '
+               'multipliers of ALL groups around it; n*formula and formula+formula likewise): the reference gets the model '
+               'multiset the text was rendered from, never anything parsed (generator pvmon/gen/compounds.py, self-checked)',
+               'a density is any positive number: 8 % of the densities are log-uniform in [1e-15, 1e-4] g/cm^3 (residual gas); '
+               'only an exactly empty compound or an exactly zero density is a vacuum']
 
 REL = 1e-10
 _state = {}
@@ -242,6 +250,8 @@ def _shape(ctx, rng, m, atoms, case, wkinds=('wavelength', 'wavelength', 'energy
 
 
 def _density(rng):
+    if rng.random() < 0.08:
+        return 10 ** rng.uniform(-15, -4)        # residual gas of an evacuated flight tube ... thin gases
     return 10 ** rng.uniform(-4, math.log10(25.))
 
 
@@ -327,6 +337,9 @@ def generate(ctx):
     for _ in range(ctx.scale(120, 1500)):
         special = rng.choice(_state['tabled']) if rng.random() < 0.85 else None
         yield 'buffer', _buffer_case(ctx, rng, special, rng.choice(['array', 'list']))
+    # (h) nested compounds: groups inside groups, n*formula, Formula arithmetic, nested structures
+    for _ in range(ctx.scale(320, 2600)):
+        yield 'compound', _nested_case(ctx, rng)
     # (d) random compounds
     for _ in range(ctx.scale(3000, 25000)):
         atoms = _random_compound(ctx, rng)
@@ -338,6 +351,103 @@ def generate(ctx):
             case['string'] = _render(atoms, rng)
         case['also_sld'] = rng.random() < 0.2
         yield 'compound', _shape(ctx, rng, m, atoms, case)
+
+
+NESTED_FORMS = ('nested-string', 'nested-formula', 'nested-struct', 'nested-arith', 'nested-scaled')
+
+
+def _nested_case(ctx, rng):
+    """A compound of 2-6 atoms written with groups nested in groups (multipliers other than 1 on at least two
+    levels), or as n*formula(text with a multiplied group).  The model multiset comes first; the tree is a random
+    bracketing OF it (pvmon.gen.compounds.nest_tree), folded back as a self-check; 'atoms' (what the reference
+    gets) is the multiset, not anything read from the rendering."""
+    import periodictable as pt
+    from fractions import Fraction
+    from ..gen import compounds as G
+    m = _state['model']
+    for _attempt in range(200):
+        items = []
+        want_table = rng.random() < 0.3
+        with_ions = rng.random() < 0.25
+        for i in range(rng.choice([2, 2, 3, 3, 4, 5, 6])):
+            if items and rng.random() < 0.12:
+                key = rng.choice(items)[0]                       # the same atom in two places of the formula
+            else:
+                Z, A = rng.choice(_state['tabled']) if (want_table and i == 0) else rng.choice(_state['with_data'])
+                key = (Z, A, _ion_of(rng, Z) if (with_ions and rng.random() < 0.6) else 0)
+            items.append((key, G.draw_count(rng)))
+        if len({k for k, _c in items}) < 2:
+            continue
+        form = rng.choice(['nested-string', 'nested-string', 'nested-formula', 'nested-struct', 'nested-arith',
+                           'nested-scaled', 'nested-scaled'])
+        outer = None
+        body = items
+        levels = rng.choice([2, 2, 2, 3])
+        if form == 'nested-scaled':
+            outer = rng.choice(G.MULTIPLIERS)
+            body = G.scaled(items, 1 / Fraction(outer))
+            if not all(G.renderable(c) for _k, c in body):
+                continue
+            levels = rng.choice([1, 1, 2])
+        tree = G.nest_tree(rng, body, levels)
+        if tree is None:
+            continue
+        break
+    else:
+        raise AssertionError('generator: no nested rendering found in 200 attempts')
+    want = G.total(items)
+    folded = {k: c * (Fraction(outer) if outer else 1) for k, c in G.denote(tree).items()}
+    if folded != want or G.nesting_of(tree) + (1 if outer else 0) < 2:
+        raise AssertionError('generator self-check failed: tree %r (outer %r) does not denote %r' % (tree, outer, want))
+    atoms = [[Z, A, q, float(c)] for (Z, A, q), c in want.items()]
+    has_ion = any(q for _Z, _A, q, _n in atoms)
+    case = {'family': 'nested', 'atoms': atoms, 'tree': tree, 'form': form, 'string': G.render_string(tree, pt.elements, rng),
+            'nesting': G.nesting_of(tree) + (1 if outer else 0), 'density': _density(rng),
+            'dkind': 'natural_density' if (not has_ion and rng.random() < 0.3) else 'density',
+            'also_sld': rng.random() < 0.1}
+    if outer:
+        case['outer'] = outer
+        case['outer_as'] = 'float' if (Fraction(outer).denominator != 1 or rng.random() < 0.3) else 'int'
+    return _shape(ctx, rng, m, atoms, case)
+
+
+class _AtomSource(object):
+    """What pvmon.gen.compounds.build_structure / build_arith need of a universe: key -> library atom."""
+
+    @staticmethod
+    def atom(k):
+        return _lib_atom(*k)
+
+
+def _nested_compound(case):
+    """Library-side compound object of a nested case."""
+    import periodictable as pt
+    from ..gen import compounds as G
+    form, text, tree = case['form'], case['string'], case['tree']
+    if form == 'nested-string':
+        return text
+    if form == 'nested-formula':
+        return pt.formula(text)
+    if form == 'nested-struct':
+        return G.build_structure(tree, _AtomSource)
+    if form == 'nested-arith':
+        return G.build_arith(tree, _AtomSource, pt.formula)
+    if form == 'nested-scaled':
+        return _outer_number(case) * pt.formula(text)
+    raise ValueError('unknown nested form %r' % (form,))
+
+
+def _outer_number(case):
+    return float(case['outer']) if case.get('outer_as') == 'float' else int(case['outer'])
+
+
+def _nested_how(case):
+    """How the compound of a nested case is written (for messages)."""
+    form, text = case['form'], case['string']
+    return {'nested-string': '%r', 'nested-formula': 'formula(%r)',
+            'nested-struct': 'nested (count, fragment) list of %r',
+            'nested-arith': 'Formula arithmetic (sum of m*formula(group)) of %r',
+            'nested-scaled': repr(_outer_number(case)) + '*formula(%r)' if form == 'nested-scaled' else ''}[form] % text
 
 
 def _buffer_case(ctx, rng, special, container):
@@ -448,7 +558,9 @@ def _call_args(case):
     for Z, A, q, n in atoms:
         a = _lib_atom(Z, A, q)
         as_dict[a] = as_dict.get(a, 0) + n
-    if form == 'string':
+    if form in NESTED_FORMS:
+        compound = _nested_compound(case)
+    elif form == 'string':
         compound = case['string']
     elif form == 'atom':
         compound = _lib_atom(*atoms[0][:3])
@@ -566,9 +678,16 @@ def check_compound(ctx, case):
     compound, kw, ws, shape = _call_args(case)
     label = case.get('string') or ' '.join('%s%s%s:%g' % (m.symbol[Z], '[%d]' % A if A else '', '{%+d}' % q if q else '', n)
                                            for Z, A, q, n in case['atoms'])
-    label = 'neutron_scattering(%s, %s)' % (label[:120], ', '.join('%s=%s' % (k, str(v)[:60]) for k, v in kw.items()))
+    nested = case.get('form') in NESTED_FORMS
+    if nested:
+        label = _nested_how(case)
+        ctx.count('nested.form.' + case['form'])
+        ctx.count('nested.multiplied_levels.%d' % case.get('nesting', 0))
+    if case['density'] < 1e-9:
+        ctx.count('density.below_1e-9')
+    label = 'neutron_scattering(%s, %s)' % (label[:160 if nested else 120], ', '.join('%s=%s' % (k, str(v)[:60]) for k, v in kw.items()))
     got = pt.neutron_scattering(compound, **kw)
-    ctx.distinct_case(_signature(case, case.get('family', 'compound')))
+    ctx.distinct_case(_signature(case, case.get('family', 'compound')) + ((case['form'],) if nested else ()))
     for Z, A, _q, _n in case['atoms']:
         if m.has_table(Z, A):
             ctx.count('energy_dependent_entry_seen.%s%s' % (m.symbol[Z], A or ''))
@@ -904,6 +1023,9 @@ def finish(ctx):
     ctx.require('reach.Neutron.scattering', 1, 'Neutron.scattering entered')
     ctx.require('dataless_compounds', 1, 'compounds with a data-less atom exercised')
     ctx.require('immutability.evaluations', 1, 'the input-immutability monitor must have compared a mutable argument')
+    for form in NESTED_FORMS:
+        ctx.require('nested.form.' + form, 1, 'a compound with multipliers on two or more nested levels given as %s' % form)
+    ctx.require('density.below_1e-9', 1, 'compounds at residual-gas densities (below 1e-9 g/cm^3)')
     for container in ('array', 'list'):
         ctx.require('buffer.reuse_with_table_atom.' + container, 1,
                     'a call re-using an in-place edited %s wavelength buffer with an energy-dependent atom' % container)
